@@ -279,11 +279,14 @@ CHAIN = {
     # a module that has nothing public at first, star-imported by m7
     'm6.py': ['', '_private6 = 0\n', 'six = 6\n_private6 = 0\n'],
     'm7.py': ['from m6 import *\nown7 = 7\n'],
+    # a package module star-importing a sibling that does not exist yet (a RELATIVE name: it is resolved against the importing file)
+    'pk/late_user.py': ['from .late import *\nfrom . import inner\nown_l = 1\n'],
 }
 CHAIN_REQUESTS = [
     ('m0.', 'import m0\nm0.', (2, 3)), ('m1.', 'import m1\nm1.', (2, 3)), ('m2.', 'import m2\nm2.', (2, 3)), ('m3.re3.', 'import m3\nm3.re3.', (2, 7)),
     ('m1.re3.', 'import m1\nm1.re3.', (2, 7)), ('pk.', 'import pk\npk.', (2, 3)), ('pk.inner.', 'import pk\npk.inner.', (2, 9)),
     ('star-names', 'from m1 import *\nown', (2, 3)), ('lint', 'from m1 import *\nprint(base, own1, re3)\n', None),
+    ('pk.late_user.', 'import pk.late_user\npk.late_user.', (2, 13)), ('star-of-late_user', 'from pk.late_user import *\nprint(late_name, own_l)\n', None),
     ('m4.', 'import m4\nm4.', (2, 3)), ('m6.', 'import m6\nm6.', (2, 3)), ('m7.', 'import m7\nm7.', (2, 3)), ('star-of-m7', 'from m7 import *\nprint(six, own7)\n', None),
     # requests that fail (the editor is in the middle of a line): the exception leaves the change-checking context as it does in the server
     ('unparsable-request', 'import m1\ndef f(:\n', (2, 5)), ('unparsable-lint', 'from m1 import *\nprint(base\n', None),
@@ -323,8 +326,8 @@ finally:
 
 
 @harness(['C09'], 'supp.project.Project / supp.module.SourceModule [request - edit - request histories against a fresh project]',
-         bounded='a project of 9 modules in 1 package (one star-importing a module that does not exist yet, one a module that has nothing public at first) with import, from-import, star-import and re-export edges (chain of length 4): every history '
-                 'request; edit; request  over 15 requests (2 of which fail inside the change-checking context) and 12 edits (rewrite of each module to each of its variants with a new mtime, touch), '
+         bounded='a project of 10 modules in 1 package (two star-importing a module that does not exist yet - by an absolute and by a relative name -, one a module that has nothing public at first) with import, from-import, star-import and re-export edges (chain of length 4): every history '
+                 'request; edit; request  over 17 requests (2 of which fail inside the change-checking context) and 13 edits (rewrite of each module to each of its variants with a new mtime, touch), '
                  'every history  failing request; request; edit; the same request, the histories  request; edit M; look M up by name; request, and 300 histories  request; edit; request; edit; request  drawn with a fixed seed')
 def edit_histories(run):
     """BOUNDED stand-in for the claim of C09 itself: after any history of edits (each with a new modification time) interleaved with requests,
@@ -345,6 +348,7 @@ def edit_histories(run):
         edits.append(('touch', 'm4.py'))
         edits.append(('touch', 'm2.py'))
         edits.append(('rewrite', 'm5.py', 'five = 5\n'))
+        edits.append(('rewrite', 'pk/late.py', 'late_name = 5\n'))
         initial = {name: variants[0] for name, variants in CHAIN.items()}
         hists = [[('request', q1), e, ('request', q2)] for q1 in CHAIN_REQUESTS for e in edits for q2 in CHAIN_REQUESTS]
         # a failed request; a request that loads the modules; an edit; the same request again
